@@ -30,12 +30,15 @@ async fn main() {
         let mut files = vec![]; let mut enc_files = vec![]; let mut used = std::collections::HashSet::new();
         for fi in 0..nf {
             let (ai, ai_s): (Option<PathBuf>, String) = if r.below(6) == 0 { (None, "-".into()) } else { let d = r.pick(&dirs); let p = if d.is_empty() { origin.clone() } else { origin.join(d) }; (Some(p.clone()), p.display().to_string()) };
-            // `new` applies same-directory files in completion order (F13): keep applies_in distinct there
-            if mode == "new" && !used.insert(ai_s.clone()) { continue; }
+            // files of one directory are applied in listed order (F13 repaired): same-directory files are wanted
+            let _ = used.insert(ai_s.clone());
             let k = r.below(4) as usize + 1;
             let lines: Vec<&str> = (0..k).map(|_| r.pick(&pats)).collect();
             let path = tmp.join(format!("ig-{ci}-{fi}"));
-            std::fs::write(&path, lines.join("\n") + "\n").unwrap();
+            // now and then a file is padded with comments (which the filter skips): a big file is read more
+            // slowly than a small one, so completion order differs from listed order
+            let pad = if mode == "new" && r.below(5) == 0 { "# padding padding padding padding padding padding padding\n".repeat(6000) } else { String::new() };
+            std::fs::write(&path, pad + &lines.join("\n") + "\n").unwrap();
             files.push(IgnoreFile { path, applies_in: ai, applies_to: None });
             enc_files.push(format!("{}\x1e{}", ai_s, lines.join("\x1f")));
         }
